@@ -3,7 +3,10 @@ From InfluxQL Require Import Base.Prelude Base.Oracles Lex.Token Ast.Ast Sem.Eva
   Proofs.ReduceProofs Proofs.ConditionProofs.
 
 (* For every condition built from time comparisons (time on either side of = < <= > >= against integer nanoseconds,
-   durations, floats, RFC3339/date strings, now(), and now() or a string plus/minus a duration — [tform]), typed
+   durations, RFC3339/date strings, now(), and now() or a string plus/minus a duration — [tform]; a FLOAT bound, which
+   is not among the bound forms the property lists, is in [tform] with the reading the code gives it - its
+   truncation toward zero by the conversion oracle, so `time < 1.5` MEANS `time < 1` here, although the evaluator
+   compares numerically; for fractional floats the theorem is therefore about the code's reading, not about Eval), typed
    non-time predicates and boolean literals, joined by AND and parentheses and by OR among conditions without time
    comparisons ([means c pure b]: c holds at the point iff b): whenever ConditionExpr succeeds, at EVERY point
    (timestamp, tag/field values of the declared kinds) the condition holds exactly when the timestamp lies in the
